@@ -1,4 +1,5 @@
 # -*- coding: utf-8 -*-
+import decimal
 import math
 from . import dispatcher
 from . import error
@@ -21,20 +22,21 @@ def PV(rate, periods, payment, future=None, type=None):
     # Return present value
     if rate == 0:
         return -payment * periods - future
-    else:
-        base = 1 + rate
-        if rate > -1 and base - 1 != rate:
-            # (1 + rate)**periods - 1 without cancellation: for small rates the difference
-            # of two numbers close to 1 loses most of its digits (rate 1e-9: 7 of 16)
-            log_growth = periods * math.log1p(rate)
-            growth = math.expm1(log_growth)
-            compound = math.exp(log_growth)
-        else:
-            # 1 + rate is exact (rate 1, -0.5, 0.25 ...): its power is correctly rounded, whereas
-            # exp(periods * log) multiplies its rounding by periods * log (PV(1,1000,0,1) was 300
-            # units in the last place off 2^-1000)
-            # math.pow and not **: an integer rate of -2 or less with a huge integer number of
-            # periods would be multiplied out exactly, for ever
-            compound = math.pow(base, periods)
-            growth = compound - 1
-        return ((-growth / rate) * payment * (1 + rate * type) - future) / compound
+    # In decimal arithmetic of 60 and more digits, rounded to a double once at the end.  In doubles
+    # every formula has a weak spot: (1+rate)**periods - 1 cancels for small rates, expm1/log1p
+    # multiply their rounding by periods*log(1+rate) (hundreds of units in the last place for large
+    # growth factors), and 1+rate itself is rounded unless rate is a small dyadic number.
+    with decimal.localcontext() as context:
+        exact = [decimal.Decimal(x) for x in (rate, periods, payment, future, type)]
+        rate_, periods_, payment_, future_, type_ = exact
+        # enough digits for 1 + rate to keep those of a tiny rate
+        context.prec = 60 + max(0, -rate_.adjusted())
+        context.Emax = decimal.MAX_EMAX
+        context.Emin = decimal.MIN_EMIN
+        try:
+            compound = (1 + rate_) ** periods_
+            result = ((1 - compound) / rate_ * payment_ * (1 + rate_ * type_) - future_) / compound
+        except decimal.DecimalException:
+            # a negative base with a fractional number of periods, a result beyond all bounds
+            return error.NUM
+        return float(result)
